@@ -64,14 +64,16 @@ TEXT.update({
             "The step through the RwLock (lock content after the guard is dropped) is assumed (interior mutability); for the &mut self callers the callee "
             "shim of LoggerHandle::set_new_spec is declared &mut self so that the lock content is part of the handle's abstract state; the parser is an "
             "oracle (C17 not applicable); concurrent use is C12."),
-    "C07": ("Selection rule: Kani runs the real remove_or_compress_too_old_logfiles_impl with recording stubs for the listing and std::fs::remove_file "
-            "(BOUNDED: listing length 0..3 quick, 0..5 thorough; limits full-domain symbolic, failing removal at a symbolic position): exactly the entries "
-            "beyond the limit are removed, in order, only listed files, the newest file is spared with direct naming, Never does nothing. Verus proves that "
-            "mount_next / initialize_with_rotation hand the cleanup the filter and writes_direct of the active naming state; Kani proves "
-            "NamingState::writes_direct (complete).",
-            "Proof level applies to the Verus clauses and the complete Kani leaves; the selection rule itself is a bounded stand-in (stated bound). "
-            "Feature `compress` (gzip, finish-before-remove) and the background cleanup thread are not verified; `listing is newest first` rests on "
-            "filter_files and the string order of names (finding F10)."),
+    "C07": ("Selection rule, unbounded: Verus proves on the extracted remove_or_compress_too_old_logfiles_impl (default features) that for every "
+            "listing length exactly the entries from position keep(cleanup, writes_direct) on are removed (loop invariant; the token fact removed(p) is "
+            "established only by a successful remove_file(p), the permission remove_ok confines removals to those entries), that the loop stops at the "
+            "first failing removal and returns its error, that the newest entry is spared under direct naming and that Cleanup::Never removes nothing. "
+            "Verus also proves that mount_next / initialize_with_rotation hand the cleanup the filter and writes_direct of the active naming state and the "
+            "composition of the listing; Kani proves NamingState::writes_direct (complete) and re-checks the selection rule on the compiled code for "
+            "listings of 0..5 entries (bounded cross-check, not counted).",
+            "Rule R12 (`.into_iter().enumerate()` -> eager shim) and the listing oracle are trusted. Feature `compress` (gzip, finish-before-remove) and the "
+            "background cleanup thread are not verified; `listing is newest first` rests on filter_files and the string order of names (finding F10); "
+            "collision_free_infix_for_rotated_file (seed S-C07-1) is not under contract."),
     "C10": ("Every function under contract in every unit carries the obligations Verus generates by itself for arithmetic overflow, str/slice/Vec index "
             "preconditions, unwrap/expect, unreachable!, callee preconditions and loop termination, for unbounded inputs; one body obligation per function. "
             "This found the brace-target slicing panic F1 (repaired).",
